@@ -108,7 +108,7 @@ def check(case) -> core.Out:
     out.sample = {"frames": [f"{i['p']}:{i['tag']}:{len(i['b'])}B" for i in items], "opts": opts,
                   "stream_head": data[:40]}
     errs = []
-    handler = errs.append if opts["quitonerror"] == 1 else None
+    handler = S.handler_returning(len(data), errs) if opts["quitonerror"] == 1 else None
     key = f"{PROP}|"
     if usage == "regrow" and len(items) >= 2:
         # the stream first ends at a frame boundary; iteration stops; more data
